@@ -192,6 +192,10 @@ def eval_script(cx: H11.Ctx, case: dict[str, Any], tmp: str) -> None:
                 # the script drives Trial._suggest directly; the public suggest_int hands int(<that value>) to the objective
                 # (an enqueued 0.0 for an int parameter reaches it as 0)
                 shown = int(got)
+            if isinstance(d, OD.FloatDistribution) and type(got) is int and m["br"] == "fixed":
+                # an int enqueued for a float parameter (enqueue_trial({"x": 1})) is handed over as that int: the property asks
+                # for a member of [low, high] on the grid, and names a type only for integer parameters
+                shown = float(got)
             why = member(d, shown)
             if why is not None:
                 cx.viol("outside-domain", "suggest(%r, %r) = %r via %s: %s" % (name, d, got, m["br"], why))
